@@ -114,7 +114,10 @@ def write_csv_folder(wb, d):
             f.write(py_csv_write([h] + rows))
 
 
-def write_xlsx(wb, path):
+def write_xlsx(wb, path, stray=None):
+    """stray: {sheet: (row_index, extra_columns)} -- explicit empty string cells to the right of
+    the table (a column without header): the same content, but openpyxl then reports a wider
+    grid whose last headers are None"""
     import openpyxl
 
     b = openpyxl.Workbook()
@@ -127,6 +130,12 @@ def write_xlsx(wb, path):
                 c = ws.cell(row=i + 1, column=j + 1)
                 c.value = val
                 c.data_type = "s"      # a string cell, whatever the text looks like
+        if stray and name in stray:
+            i, extra = stray[name]
+            for j in range(len(h), len(h) + extra):
+                c = ws.cell(row=min(i, len(rows)) + 1, column=j + 1)
+                c.value = ""
+                c.data_type = "s"
     b.save(path)
 
 
@@ -143,7 +152,7 @@ def unl(s):
     return s.replace("\r\n", "\n").replace("\r", "\n")
 
 
-def read_all_formats(wb, scratch, want_details=False):
+def read_all_formats(wb, scratch, stray=None):
     """Write wb in the three formats, read with the three real readers.
     Returns dict fmt -> ('ok', {name: (headers, rows)}) | ('err', kind, msg), plus details."""
     from rpft import converters
@@ -153,7 +162,7 @@ def read_all_formats(wb, scratch, want_details=False):
     csv_dir = os.path.join(d, "csv")
     write_csv_folder(wb, csv_dir)
     xlsx = os.path.join(d, "wb.xlsx")
-    write_xlsx(wb, xlsx)
+    write_xlsx(wb, xlsx, stray)
     out = {}
     det = {"dir": d, "csv_dir": csv_dir, "xlsx": xlsx}
 
@@ -237,23 +246,34 @@ def has_no_rows(wb):
     return any(not rows for (_, rows) in wb.values())
 
 
-def without_empty_rows(wb):
-    # the all-empty rows replaced by filled ones (removing them could create a header-only sheet)
-    return {n: (h, [r if any(r) else ["x"] * len(h) for r in rows]) for n, (h, rows) in wb.items()}
+def without_empty_rows(wb, fill):
+    """the all-empty rows replaced by filled ones (fill=True), or removed when that leaves at
+    least one row (fill=False)"""
+    out = {}
+    for n, (h, rows) in wb.items():
+        if fill:
+            out[n] = (h, [r if any(r) else ["x"] * len(h) for r in rows])
+        else:
+            kept = [r for r in rows if any(r)]
+            out[n] = (h, kept if kept or not rows else [["x"] * len(h)])
+    return out
 
 
 def classify(wb, oracle_on):
-    """A failing workbook: which input class explains the failure?  Remove the feature and
+    """A failing workbook: which input class explains the failure?  Neutralise the feature and
     re-run the oracle; the key is the (first) feature whose removal makes it pass."""
     if has_empty_row(wb):
-        w2 = without_empty_rows(wb)
-        if oracle_on(w2):
-            return K_EMPTY_ROW
-        wb = w2
+        for fill in (False, True):
+            if oracle_on(without_empty_rows(wb, fill)):
+                return K_EMPTY_ROW
+        wb = without_empty_rows(wb, False)
     if has_no_rows(wb):
-        w3 = {n: (h, rows if rows else [["x"] * len(h)]) for n, (h, rows) in wb.items()}
-        if oracle_on(w3):
-            return K_NO_ROWS
+        for filler in ("x", None):
+            w3 = {}
+            for n, (h, rows) in wb.items():
+                w3[n] = (h, rows if rows else [[(filler or f"r{j}") for j in range(len(h))]])
+            if oracle_on(w3):
+                return K_NO_ROWS
     return K_GENERIC
 
 
@@ -264,7 +284,8 @@ CELL_POOL = ["", "", "", "a", "b c", " lead", "trail ", "a,b", 'say "hi"', '"', 
              "\t", "_x000D_", "a, \"b\"\nc", "- item", "@x", "#N/A", " ", "0", "None", "null", "{}", "[1]"]
 CELL_ALPHA = list("ab ,\"\n|;\\'é世=1.") + ["😀", "\t"]
 HEADER_POOL = ["a", "b", "c", "ID", "row_id", "type", "message_text", "h é", "x.y", "list:1", "a,b", 'q"t', "col 1",
-               "世", "with|sep", "semi;colon", "N", "0", "tags.1", "=f", " sp", "line\nbreak"]
+               "世", "with|sep", "semi;colon", "N", "0", "tags.1", "=f", " sp", "line\nbreak",
+               "id", "A", "sp", "a ", "n", "Type", "é", "e"]
 NAME_POOL = ["content_index", "flow a", "données", "s1", "data-sheet", "T", "x.y", "世界", "sheet_2", "A B C", "n0", "q'q"]
 
 
@@ -681,7 +702,12 @@ def _run(ctx, v, rng, m, thorough, scratch):
                     wb_dist["non_ascii_cells"] += any(ord(ch) > 127 for ch in c)
                     wb_dist["multiline_cells"] += "\n" in c
         v.coverage["evaluations"] += 1
-        res, det = read_all_formats(wb, scratch)
+        stray = None
+        if rng.random() < 0.25:
+            sn = rng.choice(sorted(wb))
+            stray = {sn: (rng.randrange(len(wb[sn][1]) + 1), rng.choice([1, 2]))}
+            wb_dist["xlsx_with_stray_empty_column"] = wb_dist.get("xlsx_with_stray_empty_column", 0) + 1
+        res, det = read_all_formats(wb, scratch, stray)
         nontrivial.add("wb%d" % k)
         # ---- correspondence: model readers vs real readers, per sheet
         if m:
@@ -694,7 +720,8 @@ def _run(ctx, v, rng, m, thorough, scratch):
                     ctx.disagree("CSVSheetReader sheet", repr((name, h, rows)), repr(mo), repr(res["csv"]))
                 # library hypothesis (section hypothesis xl_roundtrip): what openpyxl hands back
                 g = grid.get(name)
-                want = [[(unl(c) if c != "" else None) for c in r] for r in [h] + rows]
+                extra = stray[name][1] if stray and name in stray else 0
+                want = [[(unl(c) if c != "" else None) for c in r] + [None] * extra for r in [h] + rows]
                 if g != want:
                     ctx.disagree("openpyxl string-cell round trip (section hypothesis)", repr((name, h, rows)), repr(want), repr(g))
                 if g is not None and all(c is None or isinstance(c, str) for r in g for c in r):
@@ -727,13 +754,13 @@ def _run(ctx, v, rng, m, thorough, scratch):
                 ok = False
             if not ok:
                 def oracle_on(w2):
-                    r2, d2 = read_all_formats(w2, scratch)
+                    r2, d2 = read_all_formats(w2, scratch, stray)
                     return formats_oracle(r2) and r2["csv"][0] == "ok"
                 key = classify(wb, oracle_on)
                 if key in n_fail:
                     n_fail[key] += 1
                 summary = {f: (r[0], r[1] if r[0] == "ok" else r[1:]) for f, r in res.items()}
-                v.failing_input(key, f"readers disagree on {wb!r}: {summary!r}"[:1500], dict(fn="readers", wb=wb))
+                v.failing_input(key, f"readers disagree on {wb!r} (stray={stray!r}): {summary!r}"[:1500], dict(fn="readers", wb=wb, stray=stray))
         shutil.rmtree(det["dir"], ignore_errors=True)
     stats["reader_workbooks"] = wb_dist
     stats["reader_findings_seen"] = n_fail
@@ -854,7 +881,8 @@ def replay(rep):
     scratch = tempfile.mkdtemp(prefix="c14r_")
     try:
         if r["fn"] == "readers":
-            res, det = read_all_formats(wb, scratch)
+            stray = {n: tuple(x) for n, x in r["stray"].items()} if r.get("stray") else None
+            res, det = read_all_formats(wb, scratch, stray)
             for f, x in res.items():
                 print(" ", f, x)
             return formats_oracle(res) and res["csv"][0] == "ok"
